@@ -259,3 +259,44 @@ Qed.
 Print Assumptions ml_dsa_kernels_agree.
 Print Assumptions sign_attempt_with_kernels.
 Print Assumptions verify_core_with_kernels.
+
+(* ---- conversion.rs: the five exit / loop conditions of hint_bit_unpack (Algorithm 21) and the bound of its trailing-zero loop ---- *)
+Lemma k_hbu_conds_eq c index omega first a b :
+  k_hbu_cond1 c index omega = Ok ((c <? index) || (omega mod 256 <? c)) /\
+  k_hbu_cond2 index c = Ok (index <? c) /\ k_hbu_cond3 index first = Ok (first <? index) /\
+  k_hbu_cond4 a b = Ok (negb (a <? b)) /\ k_hbu_cond5 a = Ok (negb (a =? 0)) /\ k_hbu_tail_bound omega = Ok (omega mod 256).
+Proof.
+  repeat apply conj; try reflexivity. unfold k_hbu_cond4. rewrite Z.leb_antisym. reflexivity.
+Qed.
+(* the model's loops, written with the regenerated conditions *)
+Lemma hbu_while_with_kernels f y lim first index p :
+  hbu_while (S f) y lim first index p =
+  (c2 <- k_hbu_cond2 index lim ;;
+   if c2 : bool then
+     ok <- (c3 <- k_hbu_cond3 index first ;;
+            if c3 : bool then a <- get_byte y (index - 1) ;; b <- get_byte y index ;; c4 <- k_hbu_cond4 a b ;; Ok (negb c4)
+            else Ok true) ;;
+     if ok : bool then
+       pos <- get_byte y index ;;
+       _ <- guard (pos <? zlen p) "index out of bounds" ;;
+       _ <- guard (index + 1 <? 256) "u8 add overflow" ;;
+       hbu_while f y lim first (index + 1) (zupd p pos 1)
+     else Err Malformed
+   else Ok (p, index)).
+Proof.
+  cbn [hbu_while]. unfold k_hbu_cond2, k_hbu_cond3, k_hbu_cond4. cbn [bind].
+  destruct (index <? lim); [|reflexivity]. destruct (first <? index); [|reflexivity].
+  destruct (get_byte y (index - 1)) as [a| | |]; cbn [bind]; try reflexivity.
+  destruct (get_byte y index) as [b| | |]; cbn [bind]; try reflexivity.
+  rewrite Z.leb_antisym, negb_involutive. reflexivity.
+Qed.
+Lemma hbu_poly_with_kernels omega y acc index i :
+  hbu_poly omega y (acc, index) i =
+  (c <- get_byte y (omega + i) ;;
+   c1 <- k_hbu_cond1 c index omega ;;
+   if c1 : bool then Err Malformed
+   else '(p, index') <- hbu_while 257 y c index index (zeros 256) ;; Ok (acc ++ [p], index')).
+Proof. reflexivity. Qed.
+Print Assumptions k_hbu_conds_eq.
+Print Assumptions hbu_while_with_kernels.
+Print Assumptions hbu_poly_with_kernels.
